@@ -29,7 +29,7 @@ const (
 type ContinuousDrive int16
 
 func (ccd ContinuousDrive) String() string {
-	if int(ccd) < len(strContinuousDriveDist)-1 {
+	if ccd >= 0 && int(ccd) < len(strContinuousDriveDist)-1 {
 		return strContinuousDriveString[strContinuousDriveDist[ccd]:strContinuousDriveDist[ccd+1]]
 	}
 	return "Unknown"
@@ -51,7 +51,7 @@ func (ccd ContinuousDrive) String() string {
 type FocusMode int16
 
 func (fm FocusMode) String() string {
-	if int(fm) < len(strCanonFocusModeDist)-1 {
+	if fm >= 0 && int(fm) < len(strCanonFocusModeDist)-1 {
 		return strCanonFocusModeString[strCanonFocusModeDist[fm]:strCanonFocusModeDist[fm+1]]
 	}
 	switch fm {
